@@ -462,6 +462,49 @@ func runC08(c *core.Ctx) {
 			}
 		}
 	}
+	// nor is the machine: one processor (taskset -c 0: a single-vCPU host, a one-CPU cpuset), a scheduler limited to
+	// one thread, a low limit on open files and on address space that still leaves room for the small inputs
+	{
+		mdir := filepath.Join(c.Work, "machine")
+		run.WriteFiles(mdir, map[string]string{"food.yaml": "a/b:\n  x: 1\n", "log.yaml": "2021/01/24:\n  a/b: 2\n"})
+		type limit struct {
+			what   string
+			prefix []string
+			env    map[string]string
+		}
+		var limits []limit
+		if exec.Command("taskset", "-c", "0", "true").Run() == nil {
+			limits = append(limits, limit{"one processor (taskset -c 0)", []string{"taskset", "-c", "0"}, nil})
+		} else {
+			c.Count("runs_on_one_processor_not_available", 1)
+		}
+		limits = append(limits, limit{"GOMAXPROCS=1", nil, map[string]string{"GOMAXPROCS": "1"}}, limit{"16 open files (ulimit -n 16)", []string{"sh", "-c", "ulimit -n 16; exec \"$@\"", "--"}, nil})
+		for _, lm := range limits {
+			for _, cmd := range [][]string{{"reg"}, {"bal"}, {"stats"}, {"print"}, {"lint", "log.yaml"}, {"csv", "log"}, {"csv", "database-resolved"}, {"summary", "2021/01/24"}, {"report", "totals"}, {"report", "element-total", "x"}} {
+				args := append([]string{"--no-color", "-d", "food.yaml", "-l", "log.yaml"}, cmd...)
+				if cmd[0] == "lint" {
+					args = append([]string{"--no-color"}, cmd...)
+				}
+				ref := run.Exec(c.HR, args, run.ExecOpts{Dir: mdir})
+				res := run.Exec(c.HR, args, run.ExecOpts{Dir: mdir, Env: lm.env, Prefix: lm.prefix, Timeout: 20 * time.Second})
+				if res.TimedOut {
+					res = run.Exec(c.HR, args, run.ExecOpts{Dir: mdir, Env: lm.env, Prefix: lm.prefix, Timeout: 120 * time.Second})
+				}
+				c.Eval(2)
+				c.Count("runs_on_a_limited_machine", 1)
+				c.Nontrivial("machine", lm.what, joinArgs(cmd))
+				doc := caseDoc{Args: args, Env: lm.env, Note: lm.what + "; run through: " + joinArgs(lm.prefix), Expected: resDoc(ref), Observed: resDoc(res)}
+				switch {
+				case res.TimedOut:
+					c.Violation(c08Name(cmd)+"|hang-on-a-limited-machine", fmt.Sprintf("%s: no termination within 20 s nor within 120 s in a second run", lm.what), doc)
+				case res.Crashed():
+					c.Violation(c08Name(cmd)+"|crash-on-a-limited-machine", fmt.Sprintf("%s: %s", lm.what, clip(res.Serr, 300)), doc)
+				case res.Exit != ref.Exit || res.Out != ref.Out:
+					c.Violation(c08Name(cmd)+"|differs-on-a-limited-machine", fmt.Sprintf("%s: exit %d, %d bytes; without the limit: exit %d, %d bytes", lm.what, res.Exit, len(res.Out), ref.Exit, len(ref.Out)), doc)
+				}
+			}
+		}
+	}
 	jobs, deaths := pool.Stats()
 	c.Count("l2_jobs", jobs)
 	c.Count("l2_process_deaths", deaths)
